@@ -298,6 +298,8 @@ func main() {
 			scenario{Name: "signal-while-waiting-for-health-grace-1s-" + sig, Kind: "graceful", GraceMs: 1000, Signal: sig, Phase: "health-wait", SignalAfterMs: 1500, Checks: []bool{F, F, F, F, T}, Threshold: 2},
 			scenario{Name: "graceful-3s-backend-finishes-second-signal-" + sig, Kind: "graceful", GraceMs: 3000, Signal: sig, Phase: "at-backend", BackendMs: 1500, SignalAfterMs: 200, Second: map[string]string{"INT": "TERM", "TERM": "TERM"}[sig], SecondAfterMs: 500},
 			scenario{Name: "graceful-2s-idle-second-signal-" + sig, Kind: "graceful", GraceMs: 2000, Signal: sig, Phase: "idle", SignalAfterMs: 700, Second: "INT", SecondAfterMs: 300},
+			scenario{Name: "graceful-1500ms-backend-finishes-in-the-last-half-second-" + sig, Kind: "graceful", GraceMs: 1500, Signal: sig, Phase: "at-backend", BackendMs: 1150, SignalAfterMs: 100},
+			scenario{Name: "graceful-800ms-idle-" + sig, Kind: "graceful", GraceMs: 800, Signal: sig, Phase: "idle", SignalAfterMs: 700},
 			scenario{Name: "graceful-2s-idle-list-503-" + sig, Kind: "graceful", GraceMs: 2000, Signal: sig, Phase: "idle", SignalAfterMs: 700, ListFault: "503"},
 			scenario{Name: "graceful-3s-backend-list-503-" + sig, Kind: "graceful", GraceMs: 3000, Signal: sig, Phase: "at-backend", BackendMs: 1200, SignalAfterMs: 200, ListFault: "503"},
 		)
